@@ -21,7 +21,7 @@ WITNESSES = {"CountThenLock": ("CountThenLock", 11), "CountOverIndex": ("CountOv
 def mc_cfg(level, devs, mx, nprocs=3, extra=""):
     return """SPECIFICATION MCSpec
 CONSTANTS
-  Keys = {1, 2, 3}
+  Keys = {1, 2, 3, 4}
   Procs = {%s}
   Max = %d
   Dev = %s
@@ -53,14 +53,15 @@ def witness_to_schedule(name, wfile, mx):
     for i, r in enumerate(first["rec"]):
         if r["live"]:
             init.append(dict(kind="put", k=i + 1, st="c" if r["m"] else "p",
-                             exp="none" if not r["e"] else ("past" if r["x"] else "future"), n=0, patches=[]))
+                             exp="none" if not r["e"] else ("past" if r["x"] else "future"), n=0, patches=[], create=0, seedm=0))
     steps, pending, started = [], {}, set()
     for pre, act, post in ce["action"]:
         a, c = act["name"], act.get("context", {})
         p = c.get("p")
         if a == "Call":
             q = c["q"]
-            pending[p] = dict(kind=q["kind"], n=q["n"], patches=[list(x) for x in q["patches"]], k=0, st="", exp="")
+            pending[p] = dict(kind=q["kind"], n=q["n"], patches=[list(x) for x in q["patches"]], k=0, st="", exp="",
+                              create=1 if q.get("create") else 0, seedm=1 if q.get("seedm") else 0)
         elif a == "PreCount":
             steps.append(dict(p=p, act="start", op=pending[p], want="counted"))
             started.add(p)
